@@ -32,13 +32,13 @@ theorem sedov_sing_sie_def (p : SedovRunSing.P) (r t : ℝ) :
     SedovRunSing.specific_internal_energy p r t
       = SedovRunSing.pressure p r t / (p.gamma - 1) / SedovRunSing.density p r t := by
   simp only [epv_tree]
-  split_ifs <;> first | (simp only [epv_leaf]; done) | (simp only [epv_leaf] <;> epv_semi_eq) | simp
+  split_ifs <;> first | (simp only [epv_leaf]; done) | (simp only [epv_leaf, div_div] <;> first | done | (congr 1; ring1) | ring1) | (simp only [epv_leaf] <;> epv_semi_eq) | simp
 
 /-- SedovRunSing: c = (γ p/ρ)^(1/2) on every path -/
 theorem sedov_sing_sound_def (p : SedovRunSing.P) (r t : ℝ) :
     SedovRunSing.sound_speed p r t = (p.gamma * SedovRunSing.pressure p r t / SedovRunSing.density p r t) ^ ((1 : ℝ) / 2) := by
   simp only [epv_tree]
-  split_ifs <;> first | (simp only [epv_leaf]; done) | (simp only [epv_leaf] <;> epv_semi_eq) | (simp; done) | (norm_num; done)
+  split_ifs <;> first | (simp only [epv_leaf]; done) | (simp only [epv_leaf, div_div] <;> first | done | (congr 1; ring1) | ring1) | (simp only [epv_leaf] <;> epv_semi_eq) | (simp; done) | (norm_num; done)
 
 /-- SedovRunSing: **p = (γ-1) ρ e** wherever the returned density does not vanish (the code divides by ρ
 and by γ-1) -/
@@ -58,13 +58,13 @@ theorem sedov_std_sie_def (p : SedovRunStd.P) (r t : ℝ) :
     SedovRunStd.specific_internal_energy p r t
       = SedovRunStd.pressure p r t / (p.gamma - 1) / SedovRunStd.density p r t := by
   simp only [epv_tree]
-  split_ifs <;> first | (simp only [epv_leaf]; done) | (simp only [epv_leaf] <;> epv_semi_eq) | simp
+  split_ifs <;> first | (simp only [epv_leaf]; done) | (simp only [epv_leaf, div_div] <;> first | done | (congr 1; ring1) | ring1) | (simp only [epv_leaf] <;> epv_semi_eq) | simp
 
 /-- SedovRunStd: c = (γ p/ρ)^(1/2) on every path -/
 theorem sedov_std_sound_def (p : SedovRunStd.P) (r t : ℝ) :
     SedovRunStd.sound_speed p r t = (p.gamma * SedovRunStd.pressure p r t / SedovRunStd.density p r t) ^ ((1 : ℝ) / 2) := by
   simp only [epv_tree]
-  split_ifs <;> first | (simp only [epv_leaf]; done) | (simp only [epv_leaf] <;> epv_semi_eq) | (simp; done) | (norm_num; done)
+  split_ifs <;> first | (simp only [epv_leaf]; done) | (simp only [epv_leaf, div_div] <;> first | done | (congr 1; ring1) | ring1) | (simp only [epv_leaf] <;> epv_semi_eq) | (simp; done) | (norm_num; done)
 
 /-- SedovRunStd: **p = (γ-1) ρ e** wherever the returned density does not vanish (the code divides by ρ
 and by γ-1) -/
@@ -88,7 +88,7 @@ theorem sedov_vac_sie_def (p : SedovRunVac.P) (r t : ℝ) :
     by_cases h2 : SedovRunVac.c2 p r t <;>
     simp only [SedovRunVac.specific_internal_energy, SedovRunVac.pressure, SedovRunVac.density,
       h0, h1, h2, if_true, if_false] <;>
-    first | (simp; done) | (split_ifs <;> first | (simp only [epv_leaf]; done) | (simp only [epv_leaf] <;> epv_semi_eq) | simp)
+    first | (simp; done) | (split_ifs <;> first | (simp only [epv_leaf]; done) | (simp only [epv_leaf, div_div] <;> first | done | (congr 1; ring1) | ring1) | (simp only [epv_leaf] <;> epv_semi_eq) | simp)
 
 /-- SedovRunVac: c = (γ p/ρ)^(1/2) on every path -/
 theorem sedov_vac_sound_def (p : SedovRunVac.P) (r t : ℝ) :
@@ -99,7 +99,7 @@ theorem sedov_vac_sound_def (p : SedovRunVac.P) (r t : ℝ) :
   · by_cases h1 : SedovRunVac.c1 p r t <;> by_cases h2 : SedovRunVac.c2 p r t <;>
       (simp only [SedovRunVac.sound_speed, SedovRunVac.pressure, SedovRunVac.density,
         h0, h1, h2, if_true, if_false]
-       split_ifs <;> simp only [epv_leaf] <;> epv_semi_eq)
+       split_ifs <;> simp only [epv_leaf] <;> first | done | (congr 1; ring1) | epv_semi_eq)
 
 /-- SedovRunVac: **p = (γ-1) ρ e** wherever the returned density does not vanish (the code divides by ρ
 and by γ-1) -/
@@ -124,8 +124,9 @@ theorem sedov_physical_eos (p : SedovPhysical.P) (hγ : p.gamm1 ≠ 0) (hρ : 0 
   split_ifs at * with hc
   · simp only [epv_leaf] at *
     have hne := hρ.ne'
-    have h1 : p.rho2 ≠ 0 := left_ne_zero_of_mul hne
-    have h2 : p.g ≠ 0 := right_ne_zero_of_mul hne
+    -- ρ = ρ₂ g ≠ 0, however the product is written
+    have h1 : p.rho2 ≠ 0 := fun h => hne (by simp only [h, mul_zero, zero_mul])
+    have h2 : p.g ≠ 0 := fun h => hne (by simp only [h, mul_zero, zero_mul])
     refine ⟨by field_simp, fun h0 => ?_⟩
     first
     | exact Real.sq_sqrt h0
